@@ -6,15 +6,27 @@ absolute) on pathnames over the forest; the recording handler bans each call so 
 consultation three things are compared: what the policy was asked (code), the kernel's own resolution of the same (dirfd,
 pathname) reported by the program (open O_PATH [|O_NOFOLLOW] + readlink of /proc/self/fd/N), and `presented` /
 `kernel_resolution` of the Coq model on the same forest (in Coq).  The access classes observed are compared with
-`class_of (handle_table ..)`; the driver's copy of the ABI table is compared with `abi_table`."""
+`class_of (handle_table ..)`; the driver's copy of the ABI table is compared with `abi_table`.
+Names: besides plain names every forest has directories, files and links whose names contain bytes that some text layer between
+the kernel and the policy could treat specially (texts the kernel itself uses to decorate /proc links -- " (deleted)",
+"(unreachable)", "pipe:[n]" --, blanks, line ends, control bytes, quoting / escaping / globbing characters, non-ASCII text, dot
+variants, a 255-byte name); such directories are working directories and directory descriptors of the calls, with or without
+an undecorated twin beside them.  Link targets are drawn from the same grammar as the pathnames of the calls (several
+components over names, links, '.', '..', doubled slashes), in particular targets that cross another link and then climb with
+'..'; a share of the pathnames is aimed at the links themselves (absolute and relative to the base).  The script and the report
+of the traced program (harness/probes/pathopsx.c) are %XX-escaped so that any byte passes."""
 import json
 import os
+import urllib.parse
 
 from vlib import coq_list
 
 FINISH = dict(level="proof", rule=(
-    "forests of 10..40 entries, depth <= 4, 6..14 links; 26 syscalls x pathnames of 1..8 components over {names that exist or "
-    "not, '.', '..', '', link names, trailing slash} x {absolute, cwd-relative, descriptor-relative} x 3 register encodings x "
+    "forests of 15..50 entries, depth <= 5, 8..18 links (targets: names, absolute paths, loops, pathnames of 2..5 components, targets "
+    "that cross another link and then climb with '..'), 5 directories per forest whose names imitate the kernel's decorations of "
+    "/proc links or contain blanks / control bytes / meta characters / non-ASCII text / dot variants, used as working directory and "
+    "as directory descriptors; 26 syscalls x pathnames of 1..8 components over {names that exist or "
+    "not, '.', '..', '', link names, odd names, trailing slash, pathnames aimed at links} x {absolute, cwd-relative, descriptor-relative} x 3 register encodings x "
     "flag words from the lattice of open / at-flags; non-trivial: the pathname crosses at least one symbolic link or contains "
     "'..', and the kernel's resolution succeeds; distinct = distinct (forest, call, registers, pathname)."))
 
@@ -72,6 +84,29 @@ def abi_code():
     return rows
 
 
+def esc(t):
+    """script / report escaping of harness/probes/pathopsx.c"""
+    return "".join(chr(b) if 0x20 < b < 0x7f and b != 0x25 else "%%%02X" % b for b in t.encode("utf-8", "surrogateescape"))
+
+
+def unesc(t):
+    return urllib.parse.unquote_to_bytes(t).decode("utf-8", "surrogateescape")
+
+
+# names that a text layer between the kernel and the policy could mistake for something else, by what they imitate
+def odd_names(r):
+    b = r.choice(["a", "b", "c", "d", "x"])
+    n = r.randint(1, 99999)
+    kernel = [b + " (deleted)", b + " (deleted) (deleted)", " (deleted)", "(deleted)", "(unreachable)" + b, b + " (unreachable)", b + " (deleted) ",
+              "pipe:[%d]" % n, "socket:[%d]" % n, "anon_inode:[eventpoll]", "memfd:" + b + " (deleted)", b + " (deleted).d", b + "\\040(deleted)"]
+    blank = ["sp ace", " lead", "trail ", "tab\tname", "new\nline", "cr\rname", "\x01ctl", "\x7fdel", b + " " + b, "  "]
+    meta = ["per%20cent", "100%", "back\\slash", "\\040", "\\n", "quo\"te", "ap'os", "$HOME", "*", "?", "[" + b + "]", b + ":" + b, b + "=" + b, "~", "-rf",
+            "#x", "{a,b}", "&amp;", "<x>", "`id`", "a|b", "a;b", "at@sign"]
+    nonascii = ["\u00e9", "\u65e5\u672c\u8a9e", "na\u00efve dir", "a\u0301", "\u202etxt", "\U0001f4c1"]
+    dots = ["...", ".." + b, "." + b, b + ".", ". ", ".. ", "..." + b, "x" * 255, "y" * 128]
+    return {"kernel": kernel, "blank": blank, "meta": meta, "nonascii": nonascii, "dots": dots}
+
+
 class Names:
     def __init__(self):
         self.n = {}
@@ -97,8 +132,21 @@ def canon(s, names):
     return coq_list([str(names.num(p)) for p in s.split("/") if p])
 
 
+def walk(r, cur, entries, n):
+    """n components that mostly follow real entries from directory cur (names, links, '.', '..', ''); returns (parts, directory reached lexically)"""
+    parts = []
+    for _ in range(n):
+        kids = [e[len(cur) + 1:] for e in entries if e.startswith(cur + "/") and "/" not in e[len(cur) + 1:] and not e[len(cur) + 1:].startswith("ch")]
+        c = r.choice(kids + ["..", ".", ""]) if kids else r.choice(["..", "new"])
+        parts.append(c)
+        nxt = os.path.normpath(cur + "/" + c)
+        if entries.get(nxt) == "d":
+            cur = nxt
+    return parts, cur
+
+
 def make_forest(r, root):
-    """creates a forest below root; returns (dirs, links, entries) with entries: canonical absolute path -> ('d'|'f'|('l', target))"""
+    """creates a forest below root; returns (dirs, links, entries, ...) with entries: canonical absolute path -> ('d'|'f'|('l', target))"""
     os.makedirs(root)
     entries = {}
     dirs = [root]
@@ -117,33 +165,99 @@ def make_forest(r, root):
     os.mkdir(q)
     entries[q] = "d"
     dirs.append(q)
+    # directories with odd names (see odd_names): two that imitate the kernel's decorations of link texts, one with blanks or
+    # control bytes, two of the other kinds; anywhere in the forest, sometimes with an undecorated twin beside them, sometimes nested
+    on = odd_names(r)
+    picked = [(x, "kernel") for x in r.sample(on["kernel"], 2)] + [(r.choice(on["blank"]), "blank")]
+    picked += [(r.choice(on[k]), k) for k in r.sample(["meta", "nonascii", "dots"], 2)]
+    odd = {}
+    twins = []
+    for nm, kind in picked:
+        par = r.choice([d for d in dirs if d.count("/") - root.count("/") < 4 and len(d) < 400])
+        q = par + "/" + nm
+        if q in entries:
+            continue
+        os.mkdir(q)
+        entries[q] = "d"
+        dirs.append(q)
+        odd[q] = kind
+        # the twin: what is left of the name when the odd part is cut off (a directory, a file or a link elsewhere)
+        tw = par + "/" + (nm.split(" ")[0].split("(")[0].split(":")[0].rstrip(".") or "x")
+        if tw not in entries and tw != q and r.random() < 0.6:
+            k = r.random()
+            if k < 0.5:
+                os.mkdir(tw)
+                entries[tw] = "d"
+                dirs.append(tw)
+            elif k < 0.7:
+                open(tw, "w").close()
+                entries[tw] = "f"
+            else:
+                t = r.choice(dirs)
+                os.symlink(t, tw)
+                entries[tw] = ("l", t)
+                twins.append(tw)
+    oddn = [os.path.basename(q) for q in odd]
     for _ in range(r.randint(3, 10)):
-        q = r.choice(dirs) + "/" + r.choice(["f", "g", "t.txt"])
+        q = r.choice(dirs) + "/" + r.choice(["f", "g", "t.txt"] + oddn[:1])
         if q not in entries:
             open(q, "w").close()
             entries[q] = "f"
-    links = []
-    ln = ["l0", "l1", "l2", "l3", "l4", "l5"]
-    for _ in range(r.randint(6, 14)):
+    links = list(twins)
+    ln = ["l0", "l1", "l2", "l3", "l4", "l5"] + ([("l " + oddn[-1])[:200]] if oddn else [])
+    nested = 0
+    # (the last two: every forest has links whose target crosses another link, when a link to a directory exists by then)
+    for forced in [False] * r.randint(6, 14) + [True, True]:
         d = r.choice(dirs)
         q = d + "/" + r.choice(ln)
+        k = 0.9 if forced else r.random()
+        if k >= 0.8:
+            # next to a link that leads to a directory: a relative target that crosses that link and goes on ('..' climbs from
+            # the directory the link leads to, a name is looked up there)
+            cands = [l for l in links if os.path.isdir(l)]
+            if cands and (forced or r.random() < 0.8):
+                via = r.choice(cands)
+                d = os.path.dirname(via)
+                free = [x for x in ln if d + "/" + x not in entries]
+                if not free:
+                    continue
+                q = d + "/" + r.choice(free)
+                real = os.path.realpath(via)
+                up = os.path.dirname(real)
+                there = [e[len(up) + 1:] for e in entries if e.startswith(up + "/") and "/" not in e[len(up) + 1:] and not e[len(up) + 1:].startswith("ch")]
+                here = [e[len(real) + 1:] for e in entries if e.startswith(real + "/") and "/" not in e[len(real) + 1:] and not e[len(real) + 1:].startswith("ch")]
+                nm = os.path.basename(via)
+                t = r.choice([nm + "/..", nm + "/../" + r.choice(there + ["new"]), nm + "/../" + r.choice(there + ["new"]), nm + "/./../" + r.choice(there + dn),
+                              nm + "//..//" + r.choice(there + dn) + "/", nm + "/../../" + r.choice(dn), nm + "/" + r.choice(here + ["."]) + "/../..",
+                              nm + "/" + r.choice(here + ["."]), "./" + nm + "/../" + nm, "../" + os.path.basename(d) + "/" + nm + "/../" + r.choice(there + ["f"])])
+            else:
+                t = os.path.relpath(r.choice(dirs), d)
         if q in entries:
             continue
-        k = r.random()
-        if k < 0.35:
+        if k < 0.3:
             t = r.choice(dn + ["f", "g", "..", ".", "../" + r.choice(dn), r.choice(dn) + "/" + r.choice(dn), "../..", "nonexistent",
-                               r.choice(ln), "../" + r.choice(ln), r.choice(ln) + "/" + r.choice(dn), r.choice(dn) + "/../" + r.choice(dn), "./" + r.choice(dn) + "//"])
+                               r.choice(ln), "../" + r.choice(ln), r.choice(ln) + "/" + r.choice(dn), r.choice(dn) + "/../" + r.choice(dn), "./" + r.choice(dn) + "//",
+                               r.choice(ln) + "/..", r.choice(ln) + "/../" + r.choice(dn + ln), r.choice(oddn or dn), "../" + r.choice(oddn or dn)])
+        elif k < 0.4:
+            # a pathname of the grammar of the calls, relative to the link's directory
+            parts, _ = walk(r, d, entries, r.randint(2, 5))
+            t = "/".join(parts) or "."
+            if t.startswith("/"):
+                t = "." + t
         elif k < 0.6:
             t = r.choice(dirs + [e for e in entries])        # absolute, inside the forest
         elif k < 0.7:
             t = r.choice(["/", root + "/", root + "/./" + r.choice(dn), root + "/" + r.choice(dn) + "/.."])
         elif k < 0.8:
             t = os.path.basename(q)                           # a loop
-        else:
-            t = os.path.relpath(r.choice(dirs), d)
+        if t == "":
+            t = "."
         os.symlink(t, q)
         entries[q] = ("l", t)
         links.append(q)
+        tp = [x for x in t.split("/") if x]
+        if any(x == ".." and i > 0 and tp[i - 1] not in ("..", ".") and isinstance(entries.get(os.path.normpath(d + "/" + "/".join(tp[:i]))), tuple) for i, x in enumerate(tp)):
+            nested += 1
     # a chain of 43 links ending at a directory: ch0 -> ch1 -> ... -> ch42 -> a directory
     cd = r.choice(dirs)
     for i in range(43):
@@ -155,25 +269,17 @@ def make_forest(r, root):
     lps = root + "/lps"
     os.symlink("../" * (root.count("/") - 1) + "../proc/self", lps)
     entries[lps] = ("l", "../" * (root.count("/") - 1) + "../proc/self")
-    return dirs, links, entries, cd, lps
+    return dirs, links, entries, cd, lps, odd, nested
 
 
-def gen_path(r, root, dirs, entries, cd):
+def gen_path(r, root, dirs, entries, cd, oddn=()):
     k = r.random()
-    pool = ["a", "b", "c", "d", "f", "g", "t.txt", "l0", "l1", "l2", "l3", "l4", "l5", "..", "..", ".", "", "nope", "new"]
+    pool = ["a", "b", "c", "d", "f", "g", "t.txt", "l0", "l1", "l2", "l3", "l4", "l5", "..", "..", ".", "", "nope", "new"] + list(oddn)
     n = r.randint(1, 8)
     parts = [r.choice(pool) for _ in range(n)]
     if r.random() < 0.5:
         # mostly valid: follow real entries
-        cur = r.choice(dirs)
-        parts = []
-        for _ in range(n):
-            kids = [e[len(cur) + 1:] for e in entries if e.startswith(cur + "/") and "/" not in e[len(cur) + 1:] and not e[len(cur) + 1:].startswith("ch")]
-            c = r.choice(kids + ["..", ".", ""]) if kids else r.choice(["..", "new"])
-            parts.append(c)
-            nxt = os.path.normpath(cur + "/" + c)
-            if entries.get(nxt) == "d":
-                cur = nxt
+        parts, cur = walk(r, r.choice(dirs), entries, n)
         return ("" if r.random() < 0.5 else None), parts, cur
     return None, parts, None
 
@@ -181,6 +287,7 @@ def gen_path(r, root, dirs, entries, cd):
 def run(c):
     exe = c.build_harness("h_c02")
     c.build_probe("target")
+    probe = c.build_probe("pathopsx")
     scratch = os.path.realpath(c.tmpdir("forests"))
     r = c.rng("forests")
     nforest = 10 if c.quick() else 80
@@ -189,21 +296,25 @@ def run(c):
     reachable = [x for x in ABI if x[1] is not None]
     for fi in range(nforest):
         root = "%s/f%d" % (scratch, fi)
-        dirs, links, entries, cd, lps = make_forest(r, root)
+        dirs, links, entries, cd, lps, odd, nested = make_forest(r, root)
+        oddn = [os.path.basename(q) for q in odd]
+        c.cov["directories_with_odd_names"] = c.cov.get("directories_with_odd_names", 0) + len(odd)
+        c.cov["link_targets_with_dotdot_after_a_link"] = c.cov.get("link_targets_with_dotdot_after_a_link", 0) + nested
         names = Names()
         lines = []
         cwd = r.choice(dirs)
-        lines.append("chdir " + cwd)
+        lines.append("chdir " + esc(cwd))
         slots = {}
-        for s in range(1, 5):
-            slots[s] = r.choice(dirs) if s > 1 else [d for d in dirs if "rather-long-name" in d][0]
-            lines.append("opendir %d %s" % (s, slots[s]))
+        oddl = sorted(odd, key=lambda q: (odd[q] != "kernel", q)) or [dirs[-1]]
+        for s in range(1, 8):
+            slots[s] = r.choice(dirs) if 1 < s < 5 else [d for d in dirs if "rather-long-name" in d][0] if s == 1 else oddl[(s - 5) % len(oddl)] if s < 7 else r.choice(oddl)
+            lines.append("opendir %d %s" % (s, esc(slots[s])))
         ops = []
         for oi in range(nops):
             if r.random() < 0.06:
                 if r.random() < 0.5:
                     cwd = r.choice(dirs)
-                    lines.append("chdir " + cwd)
+                    lines.append("chdir " + esc(cwd))
                 else:
                     s = r.choice(list(slots))
                     cwd = slots[s]
@@ -214,12 +325,18 @@ def run(c):
             for (dpos, ppos), f in zip(pairs, fol):
                 # pathname
                 kind = r.random()
+                thru = None
                 if oi % 40 == 7:
                     p = cd + "/ch%d" % r.choice([0, 1, 2, 3, 4, 20]) if r.random() < 0.5 else "ch%d/." % r.choice([1, 2, 3])
                     if not p.startswith("/"):
                         cwd_save = cwd
-                        lines.append("chdir " + cd)
+                        lines.append("chdir " + esc(cd))
                         cwd = cd
+                elif links and r.random() < 0.12:
+                    # aimed at a link of the forest: the link itself or something behind it (relative to the base when there is one)
+                    thru = (r.choice(links), r.choice(["", "", "/", "/.", "/..", "/../" + r.choice(["a", "b", "f", "new"] + oddn), "/" + r.choice(["a", "b", "c", "d", "f", "g", "l0", "l1"] + oddn),
+                                                       "/../" + r.choice(["l0", "l1", "l2", "l3"]), "//" + r.choice(["a", "f"]) + "/.."]), r.random() < 0.6)
+                    p = thru[0] + thru[1]
                 elif kind < 0.12:
                     p = r.choice(["/proc/self/cwd/", "/proc/thread-self/cwd/", "/proc/self/root" + root + "/", "/proc/thread-self/root" + root + "/", "/proc/self/root" + root + "/",
                                   "/proc/self/fd/%d/" % 0,
@@ -229,7 +346,7 @@ def run(c):
                                   "/proc/../proc/self/cwd/", "//proc/self/cwd/", "/proc/./self/cwd/", "/proc/self/../self/cwd/", "/proc//thread-self/./cwd/",
                                   "/usr/../proc/self/cwd/", lps + "/cwd/", lps + "/root" + root + "/"]) + r.choice(["a", "f", "l0", "..", "b/../a", "l1/../c", "c/l2"])
                 else:
-                    pre, parts, start = gen_path(r, root, dirs, entries, cd)
+                    pre, parts, start = gen_path(r, root, dirs, entries, cd, oddn)
                     p = "/".join(parts)
                     if kind < 0.4:
                         p = r.choice(dirs) + "/" + p
@@ -239,8 +356,9 @@ def run(c):
                         p += "/"
                     if p == "":
                         p = "-"
-                if " " in p or "\n" in p or len(p) > 3000:
+                if len(p) > 3000 or len(esc(p)) > 6000:
                     p = "new"
+                    thru = None
                 # base directory
                 if dpos is None:
                     dspec, base = None, cwd
@@ -255,10 +373,15 @@ def run(c):
                     else:
                         dspec, base = "num:%d" % r.choice([999, 0xffffffff, 1 << 31]), None
                     args[dpos] = "d:" + dspec
+                if thru and thru[2] and base is not None:
+                    p = os.path.relpath(thru[0], base) + thru[1]
                 # q: the string lies across a page boundary; w: it lies in a page mapped PROT_WRITE only (the kernel reads it all the same)
                 k2 = r.random()
-                args[ppos] = ("q:" if p != "-" and len(p) > 1 and k2 < 0.22 else "w:" if p != "-" and k2 < 0.34 else "p:") + p
-                checks.append({"dspec": dspec, "base": base, "path": "" if p == "-" else p, "follow_rule": f})
+                args[ppos] = ("q:" if p != "-" and len(p) > 1 and k2 < 0.22 else "w:" if p != "-" and k2 < 0.34 else "p:") + (p if p == "-" else esc(p))
+                scen = (["base directory has an odd name (%s)" % odd[base]] if base in odd and not p.startswith("/") else []) + (["pathname aimed at a link"] if thru else [])
+                if base in odd and not p.startswith("/"):
+                    c.cov["relative_to_directory_with_odd_name." + odd[base]] = c.cov.get("relative_to_directory_with_odd_name." + odd[base], 0) + 1
+                checks.append({"dspec": dspec, "base": base, "path": "" if p == "-" else p, "follow_rule": f, "scenario": scen})
             # flags
             flags = None
             readable = True
@@ -291,11 +414,11 @@ def run(c):
             lines.append("op %s %d %s" % (oid, nr, " ".join(args)))
             for ci, ck in enumerate(checks):
                 d = ck["dspec"] or "cwd:sx"
-                lines.append("t %s.%d %s %s" % (oid, ci, d, ck["path"] or "-"))
+                lines.append("t %s.%d %s %s" % (oid, ci, d, esc(ck["path"]) if ck["path"] else "-"))
             ops.append({"id": oid, "name": name, "nr": nr, "args": args, "checks": checks, "cls": cls, "flags": flags, "readable": readable})
         script = root + ".script"
         open(script, "w").write("\n".join(lines) + "\n")
-        cases.append({"id": fi, "wd": root, "script": script, "out": root + ".out"})
+        cases.append({"id": fi, "wd": root, "script": script, "out": root + ".out", "probe": probe})
         metas.append((root, entries, names, ops))
     obs = c.run_harness(exe, cases, timeout=1500)
     dis = []
@@ -309,7 +432,7 @@ def run(c):
         for ln in o["out"].splitlines():
             w = ln.split(" ")
             if w[0] == "t":
-                truth[w[1]] = (w[2], w[3])
+                truth[w[1]] = (unesc(w[2]), unesc(w[3]))
             elif w[0] == "pid":
                 tracee_pid = w[1]
         chks = []
@@ -374,7 +497,7 @@ def run(c):
                                                    dict(rep, pathname=ck["path"], presented=shown, kernel=want))
                         else:
                             c.finding_or_violation(cz("presented path is not the object the kernel resolves to", encoding=(ck["dspec"] or "none").split(":")[-1]),
-                                                   dict(rep, pathname=ck["path"], base=ck["base"], presented=shown, kernel=want, follow=follow),
+                                                   dict(rep, pathname=ck["path"], base=ck["base"], presented=shown, kernel=want, follow=follow, scenario=ck.get("scenario")),
                                                    klass="path:" + ("proc" if isproc else "plain"))
                 # Coq: model vs code vs kernel, outside /proc
                 if (not isproc or rootalias) and ck["base"] is not None and "/proc" not in shown:
